@@ -248,14 +248,15 @@ Lemma pass_cases size cl ni nf :
    else
      let i := Z.of_nat (length (filter is_int_mtype l)) in
      let f := Z.of_nat (length (filter is_sse_mtype l)) in
-     if (6 <? ni + i) || (8 <? nf + f) then (0, ni, nf) else (blk_of l, ni + i, nf + f))
+     if (negb (i =? 0) && (6 <? ni + i)) || (negb (f =? 0) && (8 <? nf + f)) then (0, ni, nf)
+     else (blk_of l, ni + i, nf + f))
   = (let '(pl, i2, f2) :=
        if existsb (fun c => match c with X87 | X87UP => true | _ => false end) sl
        then (None, ni, nf)
        else
          let i := Z.of_nat (length (filter (sclass_eqb INTEGER) sl)) in
          let s := Z.of_nat (length (filter (sclass_eqb SSE) sl)) in
-         if (6 <? ni + i) || (8 <? nf + s) then (None, ni, nf)
+         if (negb (i =? 0) && (6 <? ni + i)) || (negb (s =? 0) && (8 <? nf + s)) then (None, ni, nf)
          else (Some (map (fun c => match c with SSE => InSse | NO_CLASS => InNone | _ => InInt end) sl),
                ni + i, nf + s) in
      (blk_of_places pl, i2, f2)).
